@@ -529,9 +529,9 @@ func (fr *frame) visit(instr ssa.Instruction) continuation {
 			fr.env[instr] = x.(StructV).F[instr.Field]
 		}
 	case *ssa.IndexAddr:
-		fr.env[instr] = w.indexAddr(fr.get(instr.X), fr.get(instr.Index))
+		fr.env[instr] = w.indexAddr(fr.get(instr.X), fr.get(instr.Index), instr.Index.Type())
 	case *ssa.Index:
-		fr.env[instr] = w.index(fr.get(instr.X), fr.get(instr.Index))
+		fr.env[instr] = w.index(fr.get(instr.X), fr.get(instr.Index), instr.Index.Type())
 	case *ssa.Lookup:
 		fr.env[instr] = w.lookup(instr, fr.get(instr.X), fr.get(instr.Index))
 	case *ssa.MapUpdate:
@@ -656,20 +656,23 @@ func idxStr(t *term.Term) string {
 	return "sym"
 }
 
-func (w *Worker) idx64(v Value) *term.Term {
+func (w *Worker) idx64(v Value, typ types.Type) *term.Term {
 	t, ok := v.(*term.Term)
 	if !ok {
 		panic(pathAbort{"unsupported", "index is " + describe(v)})
 	}
 	if t.W < 64 {
 		// index operands may be of any integer type; negative values are caught as huge unsigned
+		if _, signed, ok := intInfo(typ); ok && !signed {
+			return w.TF.Zext(t, 64)
+		}
 		return w.TF.Sext(t, 64)
 	}
 	return t
 }
 
-func (w *Worker) indexAddr(x Value, idxv Value) Value {
-	idx := w.idx64(idxv)
+func (w *Worker) indexAddr(x Value, idxv Value, it types.Type) Value {
+	idx := w.idx64(idxv, it)
 	switch x := x.(type) {
 	case SliceV:
 		w.boundsCheck(idx, x.Len, false)
@@ -679,7 +682,7 @@ func (w *Worker) indexAddr(x Value, idxv Value) Value {
 		if x.Len == 1 {
 			return PtrV{O: w.kid(x.Arr, x.Off)}
 		}
-		if x.Len > maxSymIndex {
+		if x.Len > maxSymIndex || !scalarElem(x.Arr) {
 			i := w.Concretize(idx, "index", 64)
 			return PtrV{O: w.kid(x.Arr, x.Off+int(i))}
 		}
@@ -692,7 +695,7 @@ func (w *Worker) indexAddr(x Value, idxv Value) Value {
 		if idx.IsConst() {
 			return PtrV{O: w.kid(x.O, int(idx.Val))}
 		}
-		if x.O.N > maxSymIndex {
+		if x.O.N > maxSymIndex || !scalarElem(x.O) {
 			i := w.Concretize(idx, "index", 64)
 			return PtrV{O: w.kid(x.O, int(i))}
 		}
@@ -703,8 +706,8 @@ func (w *Worker) indexAddr(x Value, idxv Value) Value {
 	panic(fmt.Sprintf("IndexAddr on %T", x))
 }
 
-func (w *Worker) index(x Value, idxv Value) Value {
-	idx := w.idx64(idxv)
+func (w *Worker) index(x Value, idxv Value, it types.Type) Value {
+	idx := w.idx64(idxv, it)
 	switch x := x.(type) {
 	case ArrayV:
 		w.boundsCheck(idx, len(x.E), false)
@@ -756,7 +759,7 @@ func (w *Worker) sliceOp(instr *ssa.Slice, x, lo, hi, max Value) Value {
 		if v == nil {
 			return def
 		}
-		t := w.idx64(v)
+		t := w.idx64(v, types.Typ[types.Int])
 		return int(int64(w.Concretize(t, "slice "+what, 64)))
 	}
 	switch x := x.(type) {
@@ -832,4 +835,14 @@ func (w *Worker) typeAssert(instr *ssa.TypeAssert, xv Value) Value {
 		w.rtPanic(fmt.Sprintf("interface conversion: interface is %s, not %s", from, instr.AssertedType))
 	}
 	return v
+}
+
+// scalarElem reports whether the elements of an array object are bool/integer
+// leaves (the only ones a symbolic element pointer can merge with ite).
+func scalarElem(arr *Obj) bool {
+	if arr == nil || arr.N == 0 {
+		return false
+	}
+	_, _, ok := intInfo(arr.elemType(0))
+	return ok
 }
